@@ -3,7 +3,7 @@
 # Results are appended to /verif/seeded/RESULTS.txt
 cd /verif
 export VERIF_EVIDENCE_DIR=/var/tmp/tzrs-verif-evidence-scratch
-ids=("$@"); [ ${#ids[@]} -eq 0 ] && ids=($(ls seeded | grep -E '^C[0-9]+-[0-9]+$'))
+ids=("$@"); [ ${#ids[@]} -eq 0 ] && ids=($(ls seeded | grep -E '^C[0-9]+b?-[0-9]+$'))
 if [ -n "$(git -C /repo status --porcelain -- src)" ]; then echo "/repo/src is not clean"; exit 2; fi
 for id in "${ids[@]}"; do
   prop=${id:0:3}
